@@ -246,7 +246,7 @@ func c11Retrieval(tier string, r *Rand, ids []int64, add func(in interface{})) {
 		// conjunction sizes up to the last encodable one (255 include fields) sharing posting lists with small
 		// conjunctions: entries must order by size first
 		if kind != "rr" {
-			for _, nf := range []int{127, 128, 129, 200, 255} {
+			for _, nf := range []int{127, 128, 129, 200, 255, 256, 257, 300} { // more than 255 include fields: refused, not stored under another size
 				var big eConj
 				var all []eAssign
 				for f := 0; f < nf; f++ {
